@@ -549,6 +549,7 @@ def run(ck: Check):
     ck.extra["time_budget_exhausted"] = time.time() > t_end
     explore_objectives(ck, found)
     mixed_batch_joints(ck, found)
+    explore_likelihood_terms(ck, found)
     explore_routes(ck, found)
     ck.extra["tensor_constructors_without_dtype_or_device_in_anchored_files"] = scan_constructors_without_dtype()
     t_extra = time.time() + (25 if not ck.thorough() else 120)
@@ -625,7 +626,7 @@ def find_case(name, components=None, base=None):
     """look a case up by name; names written before the taxon count became part of the name (`,n=4`) still resolve:
     among the candidates the one whose parameter shapes equal those stored in the replay is taken"""
     cases = CS.all_cases(True) + CS.mixed_batch_components() + CS.json_cases() + CS.minimum_size_cases() + [
-        CS.soft_skygrid_distribution_case()]
+        CS.soft_skygrid_distribution_case()] + CS.likelihood_term_cases()
 
     def one(nm, shapes=None):
         exact = [c for c in cases if c.name == nm]
@@ -635,6 +636,9 @@ def find_case(name, components=None, base=None):
             cand = fit or cand
         return cand[0] if cand else None
 
+    whole = [c for c in cases if c.name == name]
+    if whole:
+        return whole[0]
     if components:
         comps = []
         for i, nm in enumerate(components):
@@ -1135,6 +1139,57 @@ def explore_routes(ck: Check, found):
         ck.extra["soft_skygrid_row_specific_sampling_times"] = obs
     except Exception as e:
         ck.extra["soft_skygrid_row_specific_sampling_times"] = f"not evaluated: {type(e).__name__}: {e}"
+
+
+def explore_likelihood_terms(ck: Check, found):
+    """every Distribution wrapper used as a likelihood term, systematically down to the degenerate end of the index
+    arithmetic in `_sample_shape`: fixed data x of every rank from exactly ONE event (no data axis) upward, univariate
+    families (then x is 0-dimensional) and event-shaped ones (Dirichlet, MultivariateNormal), parameters carrying [S] /
+    [S,K] (all of them, or one). Asserted: the reported sample_shape is the batch the parameters carry, log_prob row vs
+    slice, the term alone in a JointDistributionModel, and next to a properly batched term (a prior whose x is the
+    batched parameter): joint[s] = term[s].sum() + prior[s].sum(), or an error."""
+    shapes = [(2,), (3,), (4,), (2, 3), (4, 4)] if not ck.thorough() else \
+        [(s,) for s in range(1, 6)] + [(2, 3), (3, 2), (4, 4), (3, 3), (4, 2), (2, 4), (1, 3)]
+    for case in CS.likelihood_term_cases():
+        orc = Oracle(case, ck.rng.getrandbits(40))
+        names = sorted(case.params)
+        subs = [frozenset(names)] + [frozenset([k]) for k in names]
+        subs = [b for i, b in enumerate(subs) if b not in subs[:i]]
+        for B in subs:
+            for ss in shapes:
+                verdict, detail = orc.run(B, ss)
+                claimed = None
+                if verdict == "ok" and case.mk is not None and math.prod(ss) > 1:
+                    try:
+                        claimed = tuple(case.mk(orc.vals.batched(B, ss)).sample_shape)
+                    except Exception as e:
+                        claimed = f"raise {type(e).__name__}"
+                wrong_claim = claimed is not None and claimed != tuple(ss)
+                ck.case(key=("likelihood-term", case.name, tuple(sorted(B)), ss), nontrivial=verdict != "slice-raises",
+                        sample={"case": case.name, "batched": sorted(B), "sample_shape": list(ss), "verdict": verdict,
+                                "reported_sample_shape": list(claimed) if isinstance(claimed, tuple) else claimed}
+                        if verdict == "ok" and claimed is not None and "one-event" in case.name and len(ss) == 2 else None,
+                        bucket=f"likelihood-term/{'wrong-sample-shape' if wrong_claim else verdict}/"
+                               f"{'one-event' if 'one-event' in case.name else 'data'}")
+                pc = ck.extra.setdefault("per_class", {}).setdefault(case.name, {})
+                pc[verdict] = pc.get(verdict, 0) + 1
+                size = (len(ss), math.prod(ss))
+                if wrong_claim:
+                    _record(found, ("sample_shape:Distribution", frozenset(["parameter"]), "wrong-sample-shape"), size, case.name,
+                            replay_dict(case.name, orc, B, ss, "sample_shape",
+                                        {"component": case.name, "reported_sample_shape": list(claimed) if isinstance(claimed, tuple) else claimed,
+                                         "actual_sample_shape": list(ss), "joint_verdict": "not-in-a-joint", "joint_detail": None}), ss)
+                if verdict in ("value", "shape"):
+                    culprit, _Bc = blame_component(case, orc, B, ss)
+                    if culprit is not None and culprit[0].startswith("LikelihoodTerm"):
+                        _record(found, ("sample_shape:Distribution", frozenset(["parameter"]), "wrong-sample-shape"), size, case.name,
+                                replay_dict(case.name, orc, B, ss, "sample_shape",
+                                            {"component": culprit[0], "reported_sample_shape": list(culprit[1]),
+                                             "actual_sample_shape": list(ss), "joint_verdict": verdict, "joint_detail": detail}), ss)
+                    else:
+                        _record(found, (sig_base(case) if getattr(case, "components", None) is None else "Joint:LikelihoodTerm",
+                                        frozenset(B), "mixes" if verdict == "value" else "no-sample-rows"), size, case.name,
+                                replay_dict(case.name, orc, B, ss, verdict, detail), ss)
 
 
 class _default_dtype:
